@@ -23,6 +23,14 @@ Verdict(r) ==
              ELSE IF r.fn = "rebin" /\ r.dt_out # ResultDtype(r.dt_in) THEN "dtype"
              ELSE IF ~r.check_val THEN ""
              ELSE IF ~r.exact THEN "inexact"
+             ELSE IF r.int_out /\ (r.fn = "smooth" \/ (r.fn = "rebin" /\ ~r.flag))
+                  THEN (* integer result of an averaging call: any rounding, never a wrap-around *)
+                       LET slack == IF r.fn = "smooth" THEN 1 ELSE RebinSlack(shape, d)
+                           off == {j \in 1 .. Len(got) : ~IntegerResultOK(got[j], e.val[j], slack)}
+                       IN IF off = {} THEN ""
+                          ELSE LET k == CHOOSE j \in off : \A m \in off : j <= m
+                               IN "value: element " \o ToString(k - 1) \o " is " \o ToString(got[k][1]) \o ", specified "
+                                  \o ToString(e.val[k][1]) \o "/" \o ToString(e.val[k][2]) \o " (any rounding accepted)"
              ELSE IF got = e.val \/ got = e.alt THEN ""
              ELSE LET k == CHOOSE j \in 1 .. Len(got) : got[j] # e.val[j] /\ \A m \in 1 .. (j - 1) : got[m] = e.val[m]
                       where == "element " \o ToString(k - 1) \o " is " \o ToString(got[k][1]) \o "/" \o ToString(got[k][2])
